@@ -43,6 +43,15 @@ func totalInst(text string, cfg docCfg) *vm.Instance {
 			p[fmt.Sprintf("hole.S%d", k)] = c15StrLen + ":xmlascii"
 		}
 	}
+	if c15Quick && strings.Contains(text, "substring(") {
+		// numeric arguments of substring: quarter steps (one path per value) in the quick tier;
+		// a fully symbolic double under floor/+ makes the FP back ends answer unknown under load
+		for k := 1; k <= 9; k++ {
+			if _, ok := p[fmt.Sprintf("hole.h%d", k)]; ok {
+				p[fmt.Sprintf("hole.h%d", k)] = "qc:-6:14"
+			}
+		}
+	}
 	return &vm.Instance{ID: text + " @" + cfg.tag(), Harness: "H_total", Params: p}
 }
 
@@ -150,6 +159,17 @@ func buildC15(tier string, seed int64) *Family {
 	for _, ax := range append(append([]string{}, oracle.Axes...), "namespace", "Namespace", "child ", "foo") {
 		exprs = append(exprs, ax+"::a", ax+"::*", ax+"::a/b", "a/"+ax+"::node()", ax+"::a[1]", "*["+ax+"::a]", "count("+ax+"::*)")
 	}
+	// substring with the special values as literals
+	for _, a := range []string{"0 div 0", "1 div 0", "-1 div 0", "10000000000", "-10000000000", "-0", "0.5", "1e1"} {
+		if a == "1e1" {
+			continue
+		}
+		exprs = append(exprs, "substring('#S1', "+a+")", "substring('#S1', "+a+", 1)", "substring('#S1', 1, "+a+")", "substring(a, "+a+", "+a+")")
+	}
+	// several predicates on one step, position()/last() inside other functions
+	exprs = append(exprs, "*[@a][not(position() = last())]", "*[a][floor(last())]", "*[1][string(last())]", "*[a][last() - 1]", "*[@a][position() = last()]", "a[1][last()]",
+		"//*[a][number(last()) > 1]", "*[. = 1][boolean(last())]", "*[a][count(*) = last()]", "*[true()][round(last() div 2)]", "*[last()][last()]", "*[position()][position()]",
+		"*[a][string-length(last())]", "//*[@a][concat(last(), '')]", "(*)[not(position() = last())]", "*[a][not(last())]", "*[9001][last()]", "*[last()][9001]")
 	// nesting once: combine two random members
 	base := append([]string{}, exprs...)
 	for k := 0; k < nestN; k++ {
@@ -171,6 +191,18 @@ func buildC15(tier string, seed int64) *Family {
 	var insts []*vm.Instance
 	for _, x := range exprs {
 		insts = append(insts, totalInst(x, cfg))
+	}
+	// per-candidate state of predicate queries only shows with several candidates of which an
+	// earlier one has a longer result: larger documents, elements only
+	big := docCfg{N: 5, A: 0, Names: "a,b", Pool: ",1"}
+	for _, ax := range oracle.Axes {
+		if ax == "attribute" {
+			continue
+		}
+		insts = append(insts, totalInst("//*["+ax+"::*]", big), totalInst("//*["+ax+"::* = '1']", big))
+		if tier == "thorough" {
+			insts = append(insts, totalInst("//*[count("+ax+"::*) > 1]", big), totalInst("//*["+ax+"::*[a]]", big), totalInst("//*[not("+ax+"::a)]/"+ax+"::*", big))
+		}
 	}
 	can := totalInst("a", cfg)
 	can.ID = "canary " + can.ID
